@@ -39,6 +39,7 @@ def c05(tier, seed):
 
 
 ENGINES = {
+    "cmpfmt": ({"C13"}, "comparison / hashing / Debug vs slice; recording hasher; map lookups"),
     "order": ({"C08"}, "call-order recorders over generate/map/zip/fold/clone/default x receiver forms"),
     "chunks": ({"C10"}, "chunk regrouping: partition arithmetic on addresses/extents for every L, write-through, N = 0"),
     "regroup": ({"C11"}, "flatten/unflatten: row-major identity order, same-storage by-reference views"),
@@ -232,7 +233,31 @@ def c08(tier, seed):
     ]
 
 
+def c13(tier, seed):
+    if tier == "quick":
+        return [Run("cmpfmt", "debug", [], shards=8)]
+    return [Run("cmpfmt", "debug", [], shards=16), Run("cmpfmt", "release", [], shards=16),
+            Run("cmpfmt", "miri", ["--maxn", "2", "--budget", "3"], shards=16, label="cmpfmt/miri(N<=2)")]
+
+
 SPECS = {
+    "C13": dict(
+        engine="cmpfmt",
+        technique="reference-model monitor: every comparison operator, a recording Hasher, map lookups through Borrow<[T]> and Debug under 26 literal + 70 dynamic flag combinations, against the slice of the same elements",
+        level="exploration",
+        level_text=("Exhaustive ordered pairs (including the same object on both sides, since NaN makes == non-reflexive) over 3-4 letter alphabets "
+                    "for N in 0..=3 (4 in thorough) with u8, i32, f64 {NaN, -0.0, 0.0, 1.0}, String and nested GenericArray<u8,U2> elements, plus seeded "
+                    "random pairs sharing long prefixes for N up to 1024: ==, !=, <, <=, >, >=, partial_cmp, cmp, max must equal the slices'; a "
+                    "recording Hasher must see byte-for-byte the same call sequence for the array and its slice (and for hash_slice); HashMap and "
+                    "BTreeMap keyed by arrays must be searchable by &[T]; Debug output must equal the slice's under every flag combination tried."),
+        level_note="Trusted: std's slice comparison/hash/Debug as the reference. No unsafe beyond as_slice (C02), so native runs only in quick.",
+        runs=c13,
+        min_cases=5000,
+        exhaustive={"quick": True, "thorough": True},
+        rule="one case = an ordered pair (a, b) or a single array (self-comparison, hash, Debug) or one seeded random bundle; non-trivial = N > 0",
+        explanation="every observable of Eq/Ord/Hash/Debug compared with the slice's",
+        assumptions=["alphabets of 3-4 values per element type for the exhaustive part"],
+    ),
     "C08": dict(
         engine="order",
         technique="call-order recorder: closures and element Clone/Default impls log (call number, arguments); compared with the same computation on slices for every receiver/argument form",
